@@ -1,5 +1,5 @@
 """C11 — the pointer analysis never misses an alias that occurs at run time (engine P).
-Subjects: two marked allocations and every sequence of <=2 (thorough <=3) pointer operations from a 20-operation
+Subjects: two marked allocations and every sequence of <=2 (thorough <=3) pointer operations from a 35-operation
 alphabet (copy, conditional assignment, field/slice/map/channel/interface/closure/global round trips, struct copy,
 append, re-slice, method, out-parameter, range loop, type switch, fresh allocation, linked field); every pointer-like
 variable (and the slices/maps created on the way) is probed. Native: all valuations; probes of the same static type that
